@@ -19,9 +19,11 @@ CLAIMS = {
              "into_inner. Correspondence: every generated program (sized, zero-sized, slices, arrays, str, dyn Any with matching and "
              "non-matching targets, boxed closures, Vec conversions, injected destructor panics) runs on bumpalo::boxed::Box, "
              "std::boxed::Box and the model; results, variable contents read through the real pointers, per-call drop sequences, "
-             "moved-out values and arena accounting are compared after every call and at program end. SAMPLED, NOT PROVED: that Box "
-             "compares / hashes / formats / iterates / polls / AsRef/Borrows as its pointee (delegation is definitional in the model; "
-             "checked against std on the sampled programs, plus Hasher/Iterator/Future probes).",
+             "moved-out values and arena accounting are compared after every call and at program end. Delegation clause: that Box "
+             "compares / hashes / formats / iterates / polls / AsRef/Borrows as its pointee is definitional in the model; that the source "
+             "has that form is regenerated on every run (tools/extract_box.py -> Gen/BoxImpls.lean: 39 methods of 17 trait impls, each "
+             "classified as a literal forward to the pointee or not) and is the obligation delegating_impls_forward; the results "
+             "themselves are compared with std on the sampled programs, plus Hasher/Iterator/Future probes.",
         note=BOX_NOTE,
         technique="proof (Lean 4) + differential correspondence with std::boxed::Box and the model"),
 }
